@@ -44,17 +44,24 @@ def setup(ctx):
     ctx.pd, ctx.np = pandas, numpy
 
 
-def rrec(rng):
-    p, u = rng.choice(PA), rng.choice(UA)
+def rrec(rng, pa=PA, ua=UA):
+    p, u = rng.choice(pa), rng.choice(ua)
     # synonyms in the order drawn, not sorted: the order of a record's lists is part of the record
-    ps = tuple(q for q in rng.sample(PA, k=rng.randint(0, 2)) if q != p)
-    us = tuple(q for q in rng.sample(UA, k=rng.randint(0, 2)) if q != u)
+    ps = tuple(q for q in rng.sample(pa, k=rng.randint(0, 2)) if q != p)
+    us = tuple(q for q in rng.sample(ua, k=rng.randint(0, 2)) if q != u)
     return spec.Rec(p, u, ps, us, rng.choice([None, None, "^\\d+$", "x"]))
 
 
 def gconv(rng):
+    pa, ua = PA, UA
+    if rng.random() < 0.2:
+        # the small pools keep overlaps between converters likely; one case in five seasons them with value classes
+        # collected from the seeded changes (gen.HOSTILE_P / HOSTILE_U) - used by every converter of the case
+        if not hasattr(rng, "_c09_spice"):
+            rng._c09_spice = (gen.hostile(rng, 3, exclude=(":",)), gen.hostile(rng, 3, uri=True))
+        pa, ua = PA + [x for x in rng._c09_spice[0] if x not in PA], UA + [x for x in rng._c09_spice[1] if x not in UA]
     for _ in range(60):
-        recs = [rrec(rng) for _ in range(rng.randint(1, 3))]
+        recs = [rrec(rng, pa, ua) for _ in range(rng.randint(1, 3))]
         if spec.is_unique(recs):
             return recs
     return [rrec(rng)]
